@@ -400,9 +400,91 @@ func (n *Normer) localTableLoad(ld *ssa.UnOp) (Poly, bool) {
 	}
 	st := tableCellStore(alloc, k, fields, ld, 0)
 	if st == nil {
+		// the local is assigned a whole table on each of several paths (a switch that picks a row):
+		// with the selector known, one of the assignments is the one that reaches this read
+		if len(fields) == 0 {
+			if p, ok := n.selectedTableElem(alloc, k, ld); ok {
+				return p, true
+			}
+		}
 		return nil, false
 	}
 	return n.Norm(st.Val), true
+}
+
+// selectedTableElem: alloc is filled on different paths (whole array values, or literals written in
+// place element by element); when, in the current environment, the stores of element k that can reach
+// ld form a chain on one path, the value of the last of them.
+func (n *Normer) selectedTableElem(alloc *ssa.Alloc, k int64, ld ssa.Instruction) (Poly, bool) {
+	fn := alloc.Parent()
+	type cand struct {
+		st    *ssa.Store
+		whole bool
+	}
+	var cands []cand
+	for _, r := range *alloc.Referrers() {
+		switch x := r.(type) {
+		case *ssa.Store:
+			if x.Addr != ssa.Value(alloc) {
+				return nil, false
+			}
+			if before(x, ld) {
+				cands = append(cands, cand{x, true})
+			}
+		case *ssa.IndexAddr:
+			kk := int64(-1)
+			if c, isC := x.Index.(*ssa.Const); isC {
+				if v, isInt := constInt(c); isInt {
+					kk = int64(v)
+				}
+			}
+			for _, rr := range *x.Referrers() {
+				switch y := rr.(type) {
+				case *ssa.UnOp, *ssa.DebugRef:
+				case *ssa.Store:
+					if y.Addr != ssa.Value(x) || kk < 0 {
+						return nil, false
+					}
+					if kk == k && before(y, ld) {
+						cands = append(cands, cand{y, false})
+					}
+				default:
+					return nil, false
+				}
+			}
+		case *ssa.UnOp, *ssa.DebugRef:
+		default:
+			return nil, false
+		}
+	}
+	var live []cand
+	for _, cd := range cands {
+		cond := n.ReachCond(fn, nil, cd.st.Block())
+		if eq, _ := CondEquivalent(cond, cFalse); eq {
+			continue
+		}
+		if eq, _ := CondEquivalent(cond, cTrue); !eq {
+			return nil, false // not decided in this environment
+		}
+		live = append(live, cd)
+	}
+	if len(live) == 0 {
+		return nil, false
+	}
+	last := live[0]
+	for _, cd := range live[1:] {
+		switch {
+		case dominatesInstr(last.st, cd.st):
+			last = cd
+		case dominatesInstr(cd.st, last.st):
+		default:
+			return nil, false
+		}
+	}
+	if !last.whole {
+		return n.Norm(last.st.Val), true
+	}
+	return n.arrayElem(last.st.Val, k, 0)
 }
 
 // tableCellStore: the one store that defines element k (field path `fields`) of the local array when
@@ -523,6 +605,172 @@ func tableCellStore(alloc *ssa.Alloc, k int64, fields []int, at ssa.Instruction,
 			return nil
 		}
 		return tableCellStore(from, k, fields, src, depth+1)
+	}
+	return found
+}
+
+// Arrays handed around by value: `values [3]int` received as a parameter (go/ssa copies it into a
+// local first), produced by a helper that returns a composite literal. Element k of such a value is
+// the k-th entry of the literal, read in the context it was built in.
+func (n *Normer) arrayElemLoad(ld *ssa.UnOp) (Poly, bool) {
+	if ld.Op != token.MUL {
+		return nil, false
+	}
+	ia, ok := ld.X.(*ssa.IndexAddr)
+	if !ok {
+		return nil, false
+	}
+	alloc, ok := ia.X.(*ssa.Alloc)
+	if !ok {
+		return nil, false
+	}
+	if _, isArr := alloc.Type().Underlying().(*types.Pointer).Elem().Underlying().(*types.Array); !isArr {
+		return nil, false
+	}
+	k, isK := n.Norm(ia.Index).IsConst()
+	if !isK {
+		return nil, false
+	}
+	// the local holds one array value, stored as a whole
+	var whole *ssa.Store
+	for _, r := range *alloc.Referrers() {
+		switch x := r.(type) {
+		case *ssa.Store:
+			if x.Addr != ssa.Value(alloc) || whole != nil {
+				return nil, false
+			}
+			whole = x
+		case *ssa.IndexAddr:
+			for _, rr := range *x.Referrers() {
+				switch rr.(type) {
+				case *ssa.UnOp, *ssa.DebugRef:
+				default:
+					return nil, false
+				}
+			}
+		case *ssa.UnOp, *ssa.DebugRef:
+		default:
+			return nil, false
+		}
+	}
+	if whole == nil || !dominatesInstr(whole, ld) {
+		return nil, false
+	}
+	return n.arrayElem(whole.Val, k, 0)
+}
+
+func (n *Normer) arrayElem(v ssa.Value, k int64, depth int) (Poly, bool) {
+	if depth > 4 {
+		return nil, false
+	}
+	switch x := v.(type) {
+	case *ssa.UnOp:
+		if x.Op != token.MUL {
+			return nil, false
+		}
+		alloc, ok := x.X.(*ssa.Alloc)
+		if !ok {
+			return nil, false
+		}
+		if st := tableCellStore(alloc, k, nil, x, 0); st != nil {
+			return n.Norm(st.Val), true
+		}
+	case *ssa.Index:
+		// a row of a local table of arrays, at a known position
+		j, isK := n.Norm(x.Index).IsConst()
+		if !isK {
+			return nil, false
+		}
+		if ld, ok := x.X.(*ssa.UnOp); ok && ld.Op == token.MUL {
+			if alloc, ok := ld.X.(*ssa.Alloc); ok {
+				if st := tableCellStore(alloc, j, nil, ld, 0); st != nil {
+					return n.arrayElem(st.Val, k, depth+1)
+				}
+				if st := nestedCellStore(alloc, j, k, ld); st != nil {
+					return n.Norm(st.Val), true
+				}
+			}
+		}
+		return nil, false
+	case *ssa.Parameter:
+		arg, ctx, ok := n.paramArg(x)
+		if !ok {
+			return nil, false
+		}
+		saved := n.Ctx
+		n.Ctx = ctx
+		p, ok := n.arrayElem(arg, k, depth+1)
+		n.Ctx = saved
+		return p, ok
+	case *ssa.Call:
+		g := x.Common().StaticCallee()
+		if g == nil || !isRepoFunc(g) || g.Blocks == nil || len(returnsOf(g)) != 1 || len(returnsOf(g)[0].Results) != 1 {
+			return nil, false
+		}
+		saved := n.Ctx
+		n.Ctx = append(append([]ssa.CallInstruction{}, saved...), x)
+		p, ok := n.arrayElem(returnsOf(g)[0].Results[0], k, depth+1)
+		n.Ctx = saved
+		return p, ok
+	}
+	return nil, false
+}
+
+// nestedCellStore: a local table of arrays whose literal is written in place - table[j][k] = v - :
+// the one store of that cell, when it dominates the read and the table does not escape.
+func nestedCellStore(alloc *ssa.Alloc, j, k int64, at ssa.Instruction) *ssa.Store {
+	var found *ssa.Store
+	ok := true
+	for _, r := range *alloc.Referrers() {
+		switch row := r.(type) {
+		case *ssa.IndexAddr:
+			rc, isC := row.Index.(*ssa.Const)
+			rj, isInt := int64(0), false
+			if isC {
+				if v, okI := constInt(rc); okI {
+					rj, isInt = int64(v), true
+				}
+			}
+			for _, rr := range *row.Referrers() {
+				switch cell := rr.(type) {
+				case *ssa.IndexAddr:
+					cc, isCC := cell.Index.(*ssa.Const)
+					ck, isIntC := int64(0), false
+					if isCC {
+						if v, okI := constInt(cc); okI {
+							ck, isIntC = int64(v), true
+						}
+					}
+					for _, u := range *cell.Referrers() {
+						switch st := u.(type) {
+						case *ssa.Store:
+							if st.Addr != ssa.Value(cell) || !isInt || !isIntC {
+								ok = false
+								continue
+							}
+							if rj == j && ck == k {
+								if found != nil || !dominatesInstr(st, at) {
+									ok = false
+								}
+								found = st
+							}
+						case *ssa.UnOp, *ssa.DebugRef:
+						default:
+							ok = false
+						}
+					}
+				case *ssa.UnOp, *ssa.DebugRef:
+				default:
+					ok = false // a row stored or handed out as a whole
+				}
+			}
+		case *ssa.UnOp, *ssa.DebugRef:
+		default:
+			ok = false
+		}
+	}
+	if !ok {
+		return nil
 	}
 	return found
 }
